@@ -198,12 +198,17 @@ func cmdCheck(args []string) int {
 			defer func() { <-sem }()
 			// unit names repeat across packages (every directive has a setup_sweep): the report file is keyed by package and unit
 			jf := filepath.Join(outDir, "unit_"+sanitize.ReplaceAllString(unitPkg(u)+"_"+u.Name, "_")+".json")
-			cmd := exec.Command(self, "unit", "-file", u.File, "-unit", u.Name, "-json", jf, "-smtdir", filepath.Join(outDir, "smt", sanitize.ReplaceAllString(unitPkg(u), "_")), "-tier", *tier, "-known", knownFile)
-			cmd.Env = append(os.Environ(), "GOFLAGS=-mod=mod", "GOPROXY=off", "GOSUMDB=off", "GOTOOLCHAIN=local")
-			out, err := cmd.CombinedOutput()
+			var out []byte
+			var err error
 			var rep UnitReport
-			if b, rerr := os.ReadFile(jf); rerr == nil {
-				json.Unmarshal(b, &rep)
+			// a unit process that dies without a report (killed, transient load failure) is run once more before it is reported
+			for attempt := 0; attempt < 2 && rep.Unit == ""; attempt++ {
+				cmd := exec.Command(self, "unit", "-file", u.File, "-unit", u.Name, "-json", jf, "-smtdir", filepath.Join(outDir, "smt", sanitize.ReplaceAllString(unitPkg(u), "_")), "-tier", *tier, "-known", knownFile)
+				cmd.Env = append(os.Environ(), "GOFLAGS=-mod=mod", "GOPROXY=off", "GOSUMDB=off", "GOTOOLCHAIN=local")
+				out, err = cmd.CombinedOutput()
+				if b, rerr := os.ReadFile(jf); rerr == nil {
+					json.Unmarshal(b, &rep)
+				}
 			}
 			if rep.Unit == "" {
 				rep = UnitReport{Unit: u.Name, File: u.File, Attrs: u.Attrs, Error: fmt.Sprintf("unit process failed: %v: %s", err, lastLines(string(out), 5))}
